@@ -49,6 +49,9 @@ def label_of(ob, proof):
         i = int(m.group(2)) - 1
         if i < len(L):
             return 'loop.' + L[i]
+    m = re.match(r'(.*)\.loop_invariant_base\.(\d+)$', name)
+    if m:
+        return 'loop.invariant_not_established_on_entry.%s' % m.group(2)
     m = re.match(r'(.*)\.assertion\.(\d+)$', name)
     if m and ob.get('description'):
         d = ob['description']
